@@ -115,7 +115,9 @@ def _view(clr, table, known_old):
         except Exception as ex:
             err = type(ex).__name__
         old.append({"name": nm, "err": err})
-    return {"chromnames": names, "chromtable_names": [str(x) for x in ct["name"]],
+    pj = clr.pixels(join=True)[:]
+    return {"join_chroms": [[str(a), str(b)] for a, b in zip(pj["chrom1"], pj["chrom2"])],
+            "chromnames": names, "chromtable_names": [str(x) for x in ct["name"]],
             "chromlens": project.ints(clr.chromsizes.values),
             "bin_chroms": [str(x) for x in b["chrom"]], "bin_coords": [[int(s), int(e)] for s, e in zip(b["start"], b["end"])],
             "pixels": project.pixel_rows(p, ["bin1_id", "bin2_id", "count"]), "fetches": fetches, "old_lookups": old}
@@ -162,6 +164,7 @@ def rn_rename(case, ctx):
     raw0 = _raw_rest(path, group)
     sib0 = _raw_rest(path, sib, True) if case.get("sibling") else ""
     clr = cooler.Cooler(uri)
+    _view(clr, table, list(names0))           # the live object has been used (joined reads, lookups) before the first renaming
     stages = []
     seen = list(names0)
     for ren in case["renames"]:
